@@ -49,14 +49,22 @@ func isNewFunc(fn *ssa.Function) bool {
 	return !knownFuncs[FuncName(fn)]
 }
 
-// inlineable: new, acyclic CFG, no go/defer, does not call itself.
-func inlineable(g *ssa.Function) bool {
+// inlineable: new, acyclic CFG, no go/defer, does not call itself (terms and
+// predicate literals need a loop-free body).
+func inlineable(g *ssa.Function) bool { return inlineableLevel(g, false) }
+
+// inlineableSites: as inlineable, but loops are fine - the callee's sites are
+// spliced into the caller with their own loop guards, as they were before
+// the body was moved out.
+func inlineableSites(g *ssa.Function) bool { return inlineableLevel(g, true) }
+
+func inlineableLevel(g *ssa.Function, loopsOK bool) bool {
 	if !isNewFunc(g) {
 		return false
 	}
 	for _, b := range g.Blocks {
 		for _, s := range b.Succs {
-			if s.Index <= b.Index && s.Dominates(b) {
+			if !loopsOK && s.Index <= b.Index && s.Dominates(b) {
 				return false // back edge
 			}
 		}
@@ -98,54 +106,61 @@ func inlineCallTerm(t *Termer, call *ssa.Call, g *ssa.Function) (string, bool) {
 	if g.Signature.Results().Len() != 1 || len(t.active) > 30 {
 		return "", false
 	}
-	var ret *ssa.Return
-	n := 0
+	var rets []*ssa.Return
 	Instrs(g, func(in ssa.Instruction) {
 		if r, ok := in.(*ssa.Return); ok {
-			ret = r
-			n++
+			rets = append(rets, r)
 		}
 	})
-	if n != 1 {
+	if len(rets) == 0 {
 		return "", false
 	}
 	var as []string
 	for _, a := range CallArgs(call) {
 		as = append(as, t.T(a))
 	}
-	ct := NewTermer(g)
-	ct.ctxAt = call
-	return substParams(ct.T(ret.Results[0]), as), true
+	// several returns are a join of their values, rendered like a phi (sorted, deduplicated)
+	set := map[string]bool{}
+	withBinding(g, as, call, func() {
+		ct := NewTermer(g)
+		for _, r := range rets {
+			set[ct.T(r.Results[0])] = true
+		}
+	})
+	var ss []string
+	for s := range set {
+		ss = append(ss, s)
+	}
+	sort.Strings(ss)
+	if len(ss) == 1 {
+		return ss[0], true
+	}
+	return "phi{" + strings.Join(ss, " | ") + "}", true
 }
 
 // inlineSites: the sites of a new callee as they would appear in the caller.
 func inlineSites(caller *ssa.Function, call ssa.CallInstruction, callSite Site, g *ssa.Function, depth int) []Site {
 	var out []Site
-	args := callSite.Args
-	for _, s := range sitesDepth(g, depth+1) {
-		if s.Kind == "return" {
-			continue
+	withBinding(g, callSite.Args, call, func() {
+		for _, s := range sitesDepth(g, depth+1) {
+			if s.Kind == "return" {
+				continue
+			}
+			ns := Site{Fn: caller, Instr: call, Kind: s.Kind, Target: s.Target, Args: s.Args}
+			set := map[string]bool{}
+			for _, gd := range callSite.Guards {
+				set[gd] = true
+			}
+			for _, gd := range s.Guards {
+				set[gd] = true
+			}
+			for gd := range set {
+				ns.Guards = append(ns.Guards, gd)
+			}
+			sort.Strings(ns.Guards)
+			out = append(out, ns)
 		}
-		ns := Site{Fn: caller, Instr: call, Kind: s.Kind, Target: s.Target}
-		if s.Kind == "elemstore" || s.Kind == "recv" || s.Kind == "send" {
-			ns.Target = substParams(s.Target, args)
-		}
-		for _, a := range s.Args {
-			ns.Args = append(ns.Args, substParams(a, args))
-		}
-		set := map[string]bool{}
-		for _, gd := range callSite.Guards {
-			set[gd] = true
-		}
-		for _, gd := range s.Guards {
-			set[substParams(gd, args)] = true
-		}
-		for gd := range set {
-			ns.Guards = append(ns.Guards, gd)
-		}
-		sort.Strings(ns.Guards)
-		out = append(out, ns)
-	}
+	})
 	return out
 }
 
@@ -169,7 +184,13 @@ func expandPredicateLiterals(fn *ssa.Function, lits []string, calls map[string]*
 			continue
 		}
 		g := call.Common().StaticCallee()
-		dt := DecisionTable(g)
+		t := NewTermer(fn)
+		var as []string
+		for _, a := range CallArgs(call) {
+			as = append(as, t.T(a))
+		}
+		var dt *DTable
+		withBinding(g, as, call, func() { dt = DecisionTable(g) })
 		if dt.Err != "" {
 			add(l)
 			continue
@@ -205,14 +226,9 @@ func expandPredicateLiterals(fn *ssa.Function, lits []string, calls map[string]*
 			add(l)
 			continue
 		}
-		t := NewTermer(fn)
-		var as []string
-		for _, a := range CallArgs(call) {
-			as = append(as, t.T(a))
-		}
 		var ks []string
 		for k := range common {
-			ks = append(ks, substParams(k, as))
+			ks = append(ks, k)
 		}
 		sort.Strings(ks)
 		for _, k := range ks {
@@ -241,20 +257,62 @@ func effectFree(g *ssa.Function) bool {
 }
 
 // singleReturnTerm: the term of the only result of the only return of g.
-func singleReturnTerm(g *ssa.Function) (string, bool) {
+func singleReturnTerm(g *ssa.Function, args []string, at ssa.Instruction) (string, bool) {
 	if g.Signature.Results().Len() != 1 {
 		return "", false
 	}
-	var ret *ssa.Return
-	n := 0
-	Instrs(g, func(in ssa.Instruction) {
-		if r, ok := in.(*ssa.Return); ok {
-			ret = r
-			n++
-		}
+	set := map[string]bool{}
+	withBinding(g, args, at, func() {
+		t := NewTermer(g)
+		Instrs(g, func(in ssa.Instruction) {
+			if r, ok := in.(*ssa.Return); ok {
+				set[t.T(r.Results[0])] = true
+			}
+		})
 	})
-	if n != 1 {
-		return "", false
+	var ss []string
+	for s := range set {
+		ss = append(ss, s)
 	}
-	return NewTermer(g).T(ret.Results[0]), true
+	sort.Strings(ss)
+	switch len(ss) {
+	case 0:
+		return "", false
+	case 1:
+		return ss[0], true
+	}
+	return "phi{" + strings.Join(ss, " | ") + "}", true
+}
+
+// AllAtoms: the branch atoms of fn, including those of helpers extracted
+// after the review that fn calls (rendered over fn's terms).
+func AllAtoms(fn *ssa.Function) map[string]bool {
+	out := map[string]bool{}
+	var walk func(f *ssa.Function, depth int)
+	walk = func(f *ssa.Function, depth int) {
+		for _, e := range CondEdges(f) {
+			out[e.Atom] = true
+		}
+		if depth >= 2 {
+			return
+		}
+		t := NewTermer(f)
+		Instrs(f, func(in ssa.Instruction) {
+			call, ok := in.(*ssa.Call)
+			if !ok {
+				return
+			}
+			g := call.Common().StaticCallee()
+			if g == nil || !inlineableSites(g) {
+				return
+			}
+			var as []string
+			for _, a := range CallArgs(call) {
+				as = append(as, t.T(a))
+			}
+			withBinding(g, as, call, func() { walk(g, depth+1) })
+		})
+	}
+	walk(fn, 0)
+	return out
 }
